@@ -54,6 +54,29 @@ class Facts:
         self.nodes[key] = n
         return n
 
+    def through_file(self, p):
+        """True if resolving p passes THROUGH a regular file (ENOTDIR): no location, nothing can be opened there."""
+        cur, rest, fuel = [], list(p), 40
+        while rest and fuel > 0:
+            c = rest.pop(0)
+            if c == ".":
+                continue
+            if c == "..":
+                cur = cur[:-1]
+                continue
+            nxt = cur + [c]
+            n = self.node(nxt)
+            if n and n["kind"] == "link":
+                fuel -= 1
+                if n["abs"]:
+                    cur = []
+                rest = n["target"] + rest
+            else:
+                if n and n["kind"] == "file" and rest:
+                    return True
+                cur = nxt
+        return False
+
     def visit(self, p):
         cur, rest, fuel = [], list(p), 40
         while rest and fuel > 0:
@@ -168,7 +191,11 @@ def check(ctx):
                 shutil.rmtree(os.path.join(sacrifice, c_), ignore_errors=True)
     evs = [{"ev": "fs", "nodes": listing}]
     rawevs = vlib.read_ndjson(raw)
+    nofile = 0
     for e in rawevs:
+        if facts.through_file(full[e["spelled"]]):
+            nofile += 1          # e.g. /etc/passwd/x: the open fails with ENOTDIR whatever the guard does; no location to judge
+            continue
         evs.append({"ev": "probe", "spelled": e["spelled"], "mode": e["mode"], "path": full[e["spelled"]],
                     "refused": e["refused"], "msg": e["msg"][:160]})
     # relative spellings while $PWD names the working directory through a symlink that crosses a
@@ -198,6 +225,7 @@ def check(ctx):
     trace = os.path.join(ctx.scratch, "trace.ndjson")
     vlib.write_ndjson(trace, evs)
     ctx.notes["probes"] = len(evs) - 1
+    ctx.notes["probes_through_a_regular_file_skipped"] = nofile
     ctx.notes["fs_nodes"] = len(listing)
     ctx.notes["refused"] = len([e for e in evs[1:] if e["refused"]])
     if created:
